@@ -7,11 +7,14 @@ def run(rep, tier, seed):
     rep.rule = ("programs: every wrapper path of depth <=2 (quick) / <=3 sampled (thorough) over 20 wrapper kinds inside a try "
                 "body x focal {ok, failing call, unknown identifier, assignment to undeclared} x {no catch, catch, catch var} x "
                 "{top level, inside a block yielded with content}, probes for '.', variables, isset of every name, yield content "
-                "and output position before and after the try; each program also after an execution into a writer that fails; every program is non-trivial; distinct by program")
+                "and output position before and after the try; each program also after an execution into a writer that fails; every construct failing inside a try 130 times in one execution (Gen_Soak); every program is non-trivial; distinct by program")
     gen_and_replay(rep, wd, exe, "Gen_C13.tla", "C13_d2", {"Depth": 2}, {"Kinds": "WrapKinds"})
     # the same programs after an execution whose writer failed half way (undelivered bytes of a committed try)
     import os
     replay_vectors(rep, exe, "replay-exec-poison", os.path.join(wd, "vec_C13_d2.ndjson"), shards=4)
+    # the same failure inside a try, 130 times in one execution, for every construct: nothing accumulates
+    gen_and_replay(rep, wd, exe, "Gen_Soak.tla", "C13_soak", {"N": 130, "Depth": 1 if tier == "quick" else 2}, {"Kinds": "CoreKinds"},
+                   trace_execs=0, timeout=3000)
     mc_any_failure(rep, wd, "Gen_C13.tla", "C13_d1", {"Depth": 1}, {"Kinds": "WrapKinds"})
     if tier == "thorough":
         gen_and_replay(rep, wd, exe, "Gen_C13.tla", "C13_d3", {"Depth": 3}, {"Kinds": "CoreKinds"}, timeout=6000)
